@@ -1,7 +1,7 @@
 from typing import Any, ClassVar, Optional, Tuple, Type
 
 from statham.schema.constants import NotPassed
-from statham.schema.exceptions import ValidationError
+from statham.schema.exceptions import ValidationError, _safe_repr
 
 
 _TRUE = object()
@@ -96,7 +96,16 @@ class Validator:
 
     def error_message(self):
         """Generate the error message on failed validation."""
-        return self.message.format(**self.params)
+        try:
+            return self.message.format(**self.params)
+        except ValueError:
+            # A parameter holds an integer too large to convert to text.
+            return self.message.format(
+                **{
+                    key: _safe_repr(value, str)
+                    for key, value in self.params.items()
+                }
+            )
 
     def __call__(self, value: Any, property_: Any):
         """Apply the validator to a value.
